@@ -137,7 +137,14 @@ def run(chk):
     if not ok_st:
         chk.tie_broken("k3_time self-test failed", st_facts)
     bound = 2 if quick else 3
-    base = list(FIXED) + [gen_case(chk.rng) for _ in range(14 if quick else 150)]
+    gen = [gen_case(chk.rng) for _ in range(14 if quick else 150)]
+    base = list(FIXED) + gen
+    if not quick:
+        # the thorough budget ends before the last base case: interleave fixed and generated ones
+        f, g, base = list(FIXED), list(gen), []
+        while f or g:
+            base += f[:1] + g[:2]
+            f, g = f[1:], g[2:]
     coq_cases, coq_meta = [], []
     hist = {}
     nontrivial, distinct = set(), set()
@@ -165,7 +172,7 @@ def run(chk):
             chk.violation(sig, {"case": case, "schedule": sched, "fine": fine, "what": msg,
                                 "implementation_log": [list(map(str, e)) for e in r.log]}, size=size(case, sched))
 
-    lim = 10 if quick else 300
+    lim = 10 if quick else 80
     ran_base = 0
     with E.rebound():
         for ci, b in enumerate(base):
@@ -193,7 +200,7 @@ def run(chk):
                         coq_meta.append((case, sched))
                     if n == 2 and len(samples) < 5 and ci < 2:
                         samples.append({"case": case, "schedule": sched, "log": [list(map(str, e)) for e in r.log][:30]})
-                for _ in range(3 if quick else 30):
+                for _ in range(3 if quick else 12):
                     r = R.run_case(case, k3.random_chooser(chk.rng), fine=False)
                     judge(case, r, False, r.schedule)
                     if kind == "timeout" and not r.error and not case.get("bodies"):
@@ -201,7 +208,7 @@ def run(chk):
                         coq_meta.append((case, r.schedule))
                 for sched, _ in k3.explore(lambda ch: once(ch, True), 1 if quick else 2, limit=max(5, lim // 3)):
                     judge(case, box["r"], True, sched)
-                for _ in range(2 if quick else 20):
+                for _ in range(2 if quick else 8):
                     r = R.run_case(case, k3.random_chooser(chk.rng), fine=True)
                     judge(case, r, True, r.schedule)
         # ImmediateScheduler: exhaustive small scope
